@@ -53,6 +53,7 @@ type HarnessResult struct {
 	Terms       int            `json:"terms"`
 	Steps       int            `json:"ssa_steps"`
 	Assumptions int            `json:"assumptions"`
+	Abstraction string         `json:"abstraction,omitempty"`
 }
 
 type Loaded struct {
@@ -154,6 +155,7 @@ type RunOpts struct {
 	CrossCheck bool
 	DumpDir    string
 	Opt        map[string]string // per-nondet option overrides
+	AbstractMul bool
 }
 
 func runHarnesses(ld *Loaded, opts RunOpts) []HarnessResult {
@@ -202,8 +204,26 @@ func runHarnesses(ld *Loaded, opts RunOpts) []HarnessResult {
 }
 
 func runOne(ld *Loaded, fn *ssa.Function, opts RunOpts, pool *Pool) (res HarnessResult) {
+	if opts.AbstractMul {
+		a := runOneMode(ld, fn, opts, pool, true)
+		if a.Status == "ok" {
+			a.Abstraction = "mul-by-constant as UF: proved"
+			return a
+		}
+		c := runOneMode(ld, fn, opts, pool, false)
+		c.Abstraction = "mul-by-constant as UF gave " + a.Status + "; re-decided with real multiplication"
+		c.ExecMs += a.ExecMs
+		c.SolveMs += a.SolveMs
+		return c
+	}
+	return runOneMode(ld, fn, opts, pool, false)
+}
+
+func runOneMode(ld *Loaded, fn *ssa.Function, opts RunOpts, pool *Pool, abstractMul bool) (res HarnessResult) {
 	res = HarnessResult{Name: fn.Name(), Pkg: fn.Pkg.Pkg.Path()}
 	ex := NewExec(ld.Prog, opts.Bounds)
+	ex.AbstractMul = abstractMul
+	ex.pool = pool
 	ex.optOverride = opts.Opt
 	t0 := time.Now()
 	func() {
@@ -530,6 +550,7 @@ func cmdSymx(args []string) int {
 	fs.IntVar(&b.PtrDepth, "depth", b.PtrDepth, "recursion depth")
 	fs.IntVar(&b.Unwind, "unwind", b.Unwind, "loop unwinding")
 	tmo := fs.Int("timeout", 60, "solver timeout seconds")
+	absmul := fs.Bool("absmul", false, "abstract multiplication by constants as UF first")
 	fs.BoolVar(&verbose, "v", false, "verbose")
 	fs.BoolVar(&noSolve, "nosolve", false, "only list obligations")
 	fs.Parse(args)
@@ -539,7 +560,7 @@ func cmdSymx(args []string) int {
 		fmt.Fprintln(os.Stderr, err)
 		return 2
 	}
-	opts := RunOpts{Bounds: b, Workers: *workers, CrossCheck: *cross, DumpDir: *dump, Solvers: strings.Split(*solvers, ",")}
+	opts := RunOpts{Bounds: b, Workers: *workers, CrossCheck: *cross, DumpDir: *dump, Solvers: strings.Split(*solvers, ","), AbstractMul: *absmul}
 	if *run != "" {
 		opts.Filter = regexp.MustCompile(*run)
 	}
